@@ -11,6 +11,7 @@ import Scale.Mel
 import Scale.Append
 import Scale.EntryEnc
 import Scale.Like
+import Scale.Derive
 namespace Scale.Driver
 open Scale
 
@@ -86,6 +87,11 @@ partial def parseTy : Toks → Option (Ty × Toks)
         let (idxs, ts, r) ← parseVariants n r
         pure (.enum idxs ts, r)
       | _ => none
+    | "adt" => do
+      -- a derived definition in surface syntax: the model elaborates it itself
+      let (d, r) ← parseTypeDef rest
+      let ty ← Derive.elaborate d
+      pure (ty, r)
     | other =>
       match parsePrim other with
       | some p => some (.prim p, rest)
@@ -98,6 +104,63 @@ partial def parseTy : Toks → Option (Ty × Toks)
             pure (.seq k sz t, r)
           | _ => none
         | none => none
+
+partial def parseFields : Nat → Toks → Option (List Derive.Field × Toks)
+  | 0, r => some ([], r)
+  | n+1, r => match r with
+    | "p" :: r => do
+      let (t, r) ← parseTy r
+      let (fs, r) ← parseFields n r
+      pure (⟨false, false, none, t⟩ :: fs, r)
+    | "s" :: r => do
+      let (t, r) ← parseTy r
+      let (fs, r) ← parseFields n r
+      pure (⟨true, false, none, t⟩ :: fs, r)
+    | "c" :: r => do
+      let (t, r) ← parseTy r
+      let (fs, r) ← parseFields n r
+      pure (⟨false, true, none, t⟩ :: fs, r)
+    | "a" :: r => do
+      let (a, r) ← parseTy r
+      let (t, r) ← parseTy r
+      let (fs, r) ← parseFields n r
+      pure (⟨false, false, some a, t⟩ :: fs, r)
+    | "x" :: flags :: r => do
+      -- explicit attribute flags (for definitions carrying several attributes): s/c/a letters
+      let hasA := flags.toList.contains 'a'
+      let (a, r) ← (if hasA then (parseTy r).map fun (a, r) => (some a, r) else some (none, r))
+      let (t, r) ← parseTy r
+      let (fs, r) ← parseFields n r
+      pure (⟨flags.toList.contains 's', flags.toList.contains 'c', a, t⟩ :: fs, r)
+    | _ => none
+
+partial def parseOptNat (s : String) : Option (Option Nat) :=
+  if s == "-" then some none else s.toNat?.map some
+
+partial def parseVariantDefs : Nat → Toks → Option (List Derive.Variant × Toks)
+  | 0, r => some ([], r)
+  | n+1, r => match r with
+    | sk :: ix :: dc :: nf :: r => do
+      let sk ← (if sk == "1" then some true else if sk == "0" then some false else none)
+      let ix ← parseOptNat ix
+      let dc ← parseOptNat dc
+      let nf ← nf.toNat?
+      let (fs, r) ← parseFields nf r
+      let (vs, r) ← parseVariantDefs n r
+      pure (⟨sk, ix, dc, fs⟩ :: vs, r)
+    | _ => none
+
+partial def parseTypeDef : Toks → Option (Derive.TypeDef × Toks)
+  | "struct" :: n :: r => do
+    let n ← n.toNat?
+    let (fs, r) ← parseFields n r
+    pure (.struct fs, r)
+  | "enum" :: n :: r => do
+    let n ← n.toNat?
+    let (vs, r) ← parseVariantDefs n r
+    pure (.enum vs, r)
+  | "union" :: r => some (.union, r)
+  | _ => none
 
 partial def parseTys : Nat → Toks → Option (List Ty × Toks)
   | 0, r => some ([], r)
@@ -410,6 +473,14 @@ def answer (line : String) : String :=
       | some (b, []) => if encodesLike a b then "yes" else "no"
       | _ => "bad-op"
     | none => "bad-op"
+  | "accepts" :: rest =>
+    match parseTypeDef rest with
+    | some (d, []) => if Derive.accepts d then "accept" else "reject"
+    | _ => "bad-op"
+  | "acceptsca" :: rest =>
+    match parseTypeDef rest with
+    | some (d, []) => if Derive.acceptsCompactAs d then "accept" else "reject"
+    | _ => "bad-op"
   | "mel" :: rest =>
     match parseTy rest with
     | some (ty, []) => if Impl.hasMel ty then toString (Impl.mel ty) else "none"
